@@ -245,6 +245,39 @@ fn check_parse_contract<const N: usize, const STARS: usize>() {
 n_harness! { 9, fn c07_check_parse_6() { check_parse_contract::<6, 1>() } }
 n_harness! { 11, fn c07_check_parse_8() { check_parse_contract::<8, 1>() } }
 
+/// check/parse agreement and totality for NON-ARRAY frames: the type byte is concrete (one harness
+/// instance per type), the remaining N-1 bytes are fully symbolic, the buffer length is the concrete
+/// N (one instance per length).  Neither function panics; if `check` accepts `n` bytes then `parse`
+/// of the same buffer does not succeed at a position other than `n`.
+fn agree_contract<const N: usize, const T: u8>() {
+    let mut b: [u8; N] = kani::any();
+    b[0] = T;
+    let mut c = Cursor::new(&b[..N]);
+    let r = Frame::check(&mut c);
+    let n = c.position();
+    assert!(n as usize <= N, "check moved the cursor past the end");
+    let ok = r.is_ok();
+    std::mem::forget(r);
+    if ok {
+        c.set_position(0);
+        let p = Frame::parse(&mut c);
+        if p.is_ok() {
+            assert!(c.position() == n, "parse succeeded with a length different from the one check accepted");
+        }
+        kani::cover!(p.is_ok(), "parse returned a frame");
+        std::mem::forget(p);
+    }
+    kani::cover!(ok, "check accepted a frame");
+}
+n_harness! { 12, fn c07_agree_plus_3() { agree_contract::<3, b'+'>() } }
+n_harness! { 12, fn c07_agree_plus_5() { agree_contract::<5, b'+'>() } }
+n_harness! { 12, fn c07_agree_minus_4() { agree_contract::<4, b'-'>() } }
+n_harness! { 12, fn c07_agree_colon_4() { agree_contract::<4, b':'>() } }
+n_harness! { 12, fn c07_agree_colon_6() { agree_contract::<6, b':'>() } }
+n_harness! { 12, fn c07_agree_dollar_5() { agree_contract::<5, b'$'>() } }
+n_harness! { 12, fn c07_agree_dollar_7() { agree_contract::<7, b'$'>() } }
+n_harness! { 12, fn c07_agree_dollar_8() { agree_contract::<8, b'$'>() } }
+
 /// `parse` alone (no prior `check`) on a fully symbolic buffer: no panic, no abort-class
 /// allocation (the announced array length is symbolic up to i64::MAX).
 fn parse_alone_contract<const N: usize>() {
